@@ -12,7 +12,7 @@ RULE = ('one run = one connection whose output is known by construction (canned 
         'through a small receive buffer, with injected short writes / EAGAIN on the client socket, in '
         'threadless and thread-per-connection mode; non-trivial = at least one send() to the client was short '
         'or hit EAGAIN or the client paused reading while output was pending; distinct = distinct event-log digests')
-PROBES = ['tunnel_class', 'short_idle_timeout', 'err400', 'err404', 'err407', 'err502', 'pieces', 'static', 'upstream_close', 'threaded',
+PROBES = ['upload_reset', 'tunnel_class', 'short_idle_timeout', 'err400', 'err404', 'err407', 'err502', 'pieces', 'static', 'upstream_close', 'threaded',
           'client_paused', 'teardown_deferred', 'upstream_closed_with_output_pending', 'eof', 'reset_after_data', 'client_readable_during_drain']
 COMPONENTS = {
     'real': ['proxy/core/base/tcp_server.py', 'proxy/http/handler.py', 'proxy/core/connection/connection.py',
@@ -57,8 +57,10 @@ def run_one(tape: Any, cfg: Dict[str, Any], forbid: FrozenSet[str] = frozenset()
     with World(tape) as w:
         scen.sched_swarm(w, tape)
         w.dns['up.example'] = ['10.0.0.1']
-        mode = ['err400', 'err404', 'err407', 'err502', 'pieces', 'static', 'upstream_close', 'tunnel_class'][
-            tape.weighted([1, 1, 1, 1, 4, 2, 4, 2], 'mode')]
+        mode = ['err400', 'err404', 'err407', 'err502', 'pieces', 'static', 'upstream_close', 'tunnel_class', 'upload_reset'][
+            tape.weighted([1, 1, 1, 1, 4, 2, 4, 2, 2], 'mode')]
+        if mode == 'upload_reset' and not g.note('upstream_write_failure'):
+            mode = 'upstream_close'
         threaded = g.feature('threaded', 0.25)
         if mode == 'tunnel_class':
             # the library's tunnel base class (proxy.core.base.BaseTcpTunnelHandler, as used by examples/https_connect_tunnel.py)
@@ -126,6 +128,15 @@ def run_one(tape: Any, cfg: Dict[str, Any], forbid: FrozenSet[str] = frozenset()
             opts['min_compression_length'] = 1 << 30
             with open(os.path.join(static_dir, 'f%d.bin' % n), 'rb') as f:
                 file_bytes = f.read()
+        elif mode == 'upload_reset':
+            # a tunnel: the client uploads more than the upstream will ever read, the upstream answers and then resets; the
+            # proxy learns of the end when its next write towards the upstream fails, with the answer still queued for a client
+            # that reads slowly
+            from proxy.http.responses import PROXY_TUNNEL_ESTABLISHED_RESPONSE_PKT
+            n = scen.size(tape, 400, cfg['max_out'], 'upsize')
+            upstream_resp = scen.body_bytes(tape, n, 'up')
+            expected = bytes(PROXY_TUNNEL_ESTABLISHED_RESPONSE_PKT) + upstream_resp
+            req = b'CONNECT up.example:443 HTTP/1.1\r\nHost: up.example:443\r\n\r\n'
         elif mode == 'tunnel_class':
             from proxy.http.responses import PROXY_TUNNEL_ESTABLISHED_RESPONSE_PKT
             n = scen.size(tape, 400, cfg['max_out'], 'upsize')
@@ -164,6 +175,12 @@ def run_one(tape: Any, cfg: Dict[str, Any], forbid: FrozenSet[str] = frozenset()
             delay = [0.0, 0.0, 0.05, 2.0][tape.draw(4, 'updelay')]
             tops: List[Any] = [('send', upstream_resp, 'dribble', maxchunk)] + ([('sleep', delay)] if delay else []) + [close_kind]
             org = Origin(w, '10.0.0.1', 443, lambda i: list(tops), name='up', cap_in=caps[0], cap_out=caps[1], read_mode='chunky')
+        if mode == 'upload_reset':
+            maxchunk = max(floor, [1 << 16, 512][tape.draw(2, 'upchunk')])
+            delay = [0.0, 0.05, 0.5][tape.draw(3, 'updelay')]
+            uops: List[Any] = [('pause_read',), ('wait_rx', lambda p: p.st is not None and len(p.st.rx) > 0),
+                               ('send', upstream_resp, 'dribble', maxchunk)] + ([('sleep', delay)] if delay else []) + [('reset',)]
+            org = Origin(w, '10.0.0.1', 443, lambda i: list(uops), name='up', cap_in=1024, cap_out=caps[1], read_mode='chunky')
         if mode == 'upstream_close':
             close_kind = [('close',), ('reset',)][tape.weighted([4, 1], 'upclose')]
             if close_kind == ('reset',) and not g.note('upstream_reset'):
@@ -181,6 +198,8 @@ def run_one(tape: Any, cfg: Dict[str, Any], forbid: FrozenSet[str] = frozenset()
                          cap_out=caps[1], read_mode='chunky')
         # ---- client: reads at a drawn pace, may pause ------------------------------------
         script: List[Any] = [('connect',), ('send', req, 'burst')]
+        if mode == 'upload_reset':
+            script += [('wait_rx', lambda p: b'\r\n\r\n' in p.rx), ('send', b'U' * 20000, 'burst')]
         paused = tape.coin(0.4, 'pause')
         if paused:
             script += [('pause_read',), ('sleep', [0.01, 0.3, 3.0][tape.draw(3, 'pause-len')]), ('resume_read',)]
@@ -236,6 +255,11 @@ def run_one(tape: Any, cfg: Dict[str, Any], forbid: FrozenSet[str] = frozenset()
                     w.fail('wrong_output', mode, 'static body differs from the file (%d vs %d bytes)' % (len(fin[0]['body']), len(file_bytes)))
             else:
                 assert expected is not None
+                if mode == 'upload_reset' and org.conns and org.conns[0].st is not None and org.conns[0].st.peer is not None:
+                    # the proxy learns of the reset from a failing write and need not read on: what it owes the client is
+                    # what it had taken out of the upstream socket by then
+                    taken = org.conns[0].st.peer.read_total
+                    expected = expected[:len(expected) - len(upstream_resp) + min(taken, len(upstream_resp))]
                 if rx != expected:
                     w.fail('incomplete_output', mode, 'client got %d of %d output bytes before %s'
                            % (len(rx), len(expected), 'end-of-stream' if closed else 'the run went quiet (no close either)'))
@@ -249,9 +273,15 @@ def run_one(tape: Any, cfg: Dict[str, Any], forbid: FrozenSet[str] = frozenset()
                     if mode in ('upstream_close', 'tunnel_class') and org.conns and org.conns[0].done_time is not None:
                         # the proxy ends the connection because the upstream closed: measure from then
                         ref_t = max(ref_t, org.conns[0].done_time)
-                    if cl.t_eof is not None and cl.t_eof - ref_t > lim:
+                    t_close = cl.t_eof
+                    if mode == 'upload_reset' and h.accepted and h.accepted[-1].t_end is not None:
+                        # (the client may be pausing when the end comes: take the moment the proxy ended its side)
+                        t_close = h.accepted[-1].t_end
+                        if org.conns and org.conns[0].done_time is not None:
+                            ref_t = max(ref_t, org.conns[0].done_time)
+                    if t_close is not None and t_close - ref_t > lim:
                         w.fail('late_close', mode, 'end-of-stream %.3f s after the client read the last byte / the upstream closed'
-                               % (cl.t_eof - ref_t))
+                               % (t_close - ref_t))
         res.nontrivial = bool(w.stats.get('short_write', 0) or w.stats.get('eagain_send', 0) or
                               w.stats.get('fault:short', 0) or w.stats.get('fault:eagain', 0) or paused)
         res.features = g.features
